@@ -62,39 +62,24 @@ Proof.
   rewrite existsb_app in H. apply orb_false_iff in H as [_ H]. cbn in H. discriminate.
 Qed.
 
-Lemma canon_not_twin p : twin p = false -> canon p = p.
-Proof.
-  unfold twin, canon. destruct (equal_fold p INBOX); simpl; [|reflexivity].
-  intros H. apply negb_false_iff, str_eqb_eq in H. now subst.
-Qed.
-
-Lemma parents_raw n :
-  existsb is_nil (raw_parents n) = false -> existsb twin (raw_parents n) = false -> parents n = raw_parents n.
-Proof.
-  unfold parents, raw_parents. induction (prefixes_at_delim [] n) as [|p l IH]; simpl; [reflexivity|].
-  intros H1 H2. apply orb_false_iff in H1 as [H1 H1'], H2 as [H2 H2'].
-  rewrite H1. simpl. rewrite canon_not_twin by exact H2. f_equal. now apply IH.
-Qed.
-
-Lemma rename_parents_ok ps : forall bs,
-  existsb is_nil ps = false -> rename_parents ps bs = Some (add_missing ps bs).
-Proof.
-  induction ps as [|p ps IH]; intros bs H; simpl; [reflexivity|].
-  simpl in H. apply orb_false_iff in H as [Hp H].
-  unfold add_missing. simpl. destruct (exists_box bs p) eqn:E.
-  - now apply IH.
-  - unfold create_box. rewrite Hp, E. now apply IH.
-Qed.
-
 Lemma create_missing_ok ps : forall bs,
-  create_missing ps bs = add_missing (filter (fun p => negb (is_nil p)) ps) bs.
+  create_missing ps bs = add_missing (filter parent_name ps) bs.
 Proof.
   induction ps as [|p ps IH]; intros bs; simpl; [reflexivity|].
-  unfold create_missing in *. simpl. unfold create_missing_step at 2. unfold create_box.
-  destruct (is_nil p) eqn:Hp; simpl.
-  - destruct (exists_box bs p); apply IH.
-  - unfold add_missing. simpl. destruct (exists_box bs p) eqn:E; [apply IH|]. apply IH.
+  unfold create_missing in *. simpl. unfold create_missing_step at 2. unfold create_box, parent_name.
+  destruct (equal_fold p INBOX) eqn:Hi; simpl.
+  - rewrite andb_false_r. apply IH.
+  - rewrite andb_true_r. destruct (is_nil p) eqn:Hp; simpl.
+    + destruct (exists_box bs p); apply IH.
+    + unfold add_missing. simpl. destruct (exists_box bs p) eqn:E; apply IH.
 Qed.
+
+(** the parent paths the code walks are the spec's parents *)
+Lemma create_missing_parents n bs : create_missing (paths_of n) bs = add_missing (parents n) bs.
+Proof. rewrite create_missing_ok, paths_of_raw. reflexivity. Qed.
+
+Lemma parents_child p n : In p (parents n) -> is_child p n = true.
+Proof. unfold parents. intros H. apply filter_In in H as [H _]. now apply raw_parents_child. Qed.
 
 Lemma add_missing_names ps : forall bs m,
   In m (names (add_missing ps bs)) <-> In m (names bs) \/ In m ps.
